@@ -39,6 +39,14 @@ pub fn cases(thorough: bool, seed: u64) -> Vec<Params> {
             }
         }
     }
+    // large batches (multiscalar paths specialised by size): all valid, one invalid at either end, a cancelling pair
+    for k in if thorough { vec![9u16, 17, 33, 65] } else { vec![9u16, 33] } {
+        out.push(mk(k, V_SUBSET, 0));
+        out.push(mk(k, V_SUBSET, 1));
+        out.push(mk(k, V_SUBSET, 1 << (k.min(63) - 1)));
+        out.push(mk(k, V_PAIR, 0 | (2 << 4)));
+        out.push(mk(k, V_KINDS, 2 | (((k.min(15) - 1) as u64) << 4)));
+    }
     for a in 0..3 {
         out.push(mk(1, V_SINGLE, a));
     }
